@@ -245,7 +245,9 @@ func ReadResponse(r io.Reader, tcpID *api.TcpID, counterPair *api.CounterPair, c
 		mt.(messageType).decode(d, valueOf(deleteTopicsResponse))
 		reqResPair.Response.Payload = deleteTopicsResponse
 	default:
-		return fmt.Errorf("(Response) Not implemented: %s", apiKey)
+		// The response to a request that was skipped: skip it too.
+		d.discardAll()
+		return nil
 	}
 
 	connectionInfo := &api.ConnectionInfo{
@@ -288,11 +290,6 @@ func ReadResponse(r io.Reader, tcpID *api.TcpID, counterPair *api.CounterPair, c
 		},
 	}
 	emitter.Emit(item)
-
-	if i := int(apiKey); i < 0 || i >= numApis {
-		err = fmt.Errorf("unsupported api key: %d", i)
-		return err
-	}
 
 	d.discardAll()
 
